@@ -1010,7 +1010,7 @@ func runCustom(t *testing.T) {
 			}
 			for ki, kind := range kinds {
 				idx++
-				if !rec.Mine(idx) {
+				if !rec.Mine(idx) || rec.Violations() > 20 {
 					continue
 				}
 				if noRetained && retainedKinds[kind] {
